@@ -887,6 +887,25 @@ func (in *Interp) fmtArg(v Value, verb byte) []*sym.Term {
 			}
 			return append(out, sym.BV(']', 8))
 		}
+		// []any (non-nil elements) with %s / %v: each element under the same verb
+		if (verb == 's' || verb == 'v') && len(v) > 0 {
+			all := true
+			for _, e := range v {
+				if iv, ok := e.(Iface); !ok || iv.T == nil {
+					all = false
+				}
+			}
+			if all {
+				out := []*sym.Term{sym.BV('[', 8)}
+				for i, e := range v {
+					if i > 0 {
+						out = append(out, sym.BV(' ', 8))
+					}
+					out = append(out, in.fmtArg(e, verb)...)
+				}
+				return append(out, sym.BV(']', 8))
+			}
+		}
 		// []byte with %s / %x
 		if verb == 's' {
 			var b []*sym.Term
